@@ -585,3 +585,39 @@ Proof.
     unfold is_floor_s. pose proof (Z.mul_div_le ((total - cut) * s_dsc s) (s_supply s) Hs).
     pose proof (Z.mul_succ_div_gt ((total - cut) * s_dsc s) (s_supply s) Hs). lia.
 Qed.
+
+(** ---- unbonding: possible in full once elapsed, and only once ---- *)
+Lemma sub_chk_ge a b : b <= a -> sub_chk a b = Ok (a - b).
+Proof. intros H. unfold sub_chk. destruct (a <? b) eqn:E; [apply Z.ltb_lt in E; lia | reflexivity]. Qed.
+
+Lemma sub_chk_lt a b : a < b -> is_ok (sub_chk a b) = false.
+Proof. intros H. unfold sub_chk. destruct (a <? b) eqn:E; [reflexivity | apply Z.ltb_ge in E; lia]. Qed.
+
+Lemma asum_nonneg_s l : all_nonneg l -> 0 <= asum l.
+Proof. induction l as [|[k v] t IH]; simpl; intros H; [lia|]. inversion H as [|x l' Hx Hl]; subst. simpl in Hx. specialize (IH Hl). lia. Qed.
+
+Lemma unbond_live s ep c n amt unlock : StkInv s -> active s = true -> s_virt s <= s_supply s ->
+  find_z (s_ub s) n = Some unlock -> unlock <= ep -> 0 < amt <= aget (s_ubamt s) n ->
+  exists s', sstep s (SUnbond ep c n amt) = Ok (s', [amt]).
+Proof.
+  intros I Ha Hv Hf Hu Hamt. pose proof I as [cap bal ub ubnd ubnn fr fr2 (w1 & w2 & w3 & w4 & w5 & w6 & w7 & w8 & w9)].
+  assert (Hle : aget (s_ubamt s) n <= s_ubtot s).
+  { rewrite ub. clear - ubnd ubnn. induction (s_ubamt s) as [|[k v] t IH]; simpl; [lia|].
+    inversion ubnn as [|x l Hx Hl]; subst. simpl in Hx. simpl in ubnd. inversion ubnd as [|x l Hni Hnd]; subst.
+    specialize (IH Hnd Hl). pose proof (asum_nonneg_s t Hl). destruct (k =? n); lia. }
+  cbn [sstep]. rewrite Ha. assert (E0 : (0 <? amt) = true) by (apply Z.ltb_lt; lia). rewrite E0. rewrite Hf.
+  assert (E1 : (unlock <=? ep) = true) by (apply Z.leb_le; lia). rewrite E1.
+  rewrite (sub_chk_ge (aget (s_ubamt s) n) amt) by lia. cbn [bind].
+  rewrite (sub_chk_ge (s_bal s) amt) by lia. cbn [bind].
+  rewrite (sub_chk_ge (s_ubtot s) amt) by lia. cbn [bind]. eexists. reflexivity.
+Qed.
+
+Lemma unbond_once s ep c n s' o : sstep s (SUnbond ep c n (aget (s_ubamt s) n)) = Ok (s', o) ->
+  forall ep' c' amt', is_ok (sstep s' (SUnbond ep' c' n amt')) = false.
+Proof.
+  intros H ep' c' amt'. destruct (unbond_char _ _ _ _ _ _ _ H) as (unlock & _ & _ & _ & _ & _ & _ & Hz & _).
+  cbn [sstep]. destruct (active s'); [|reflexivity]. destruct (0 <? amt') eqn:Ea; [|reflexivity]. apply Z.ltb_lt in Ea.
+  destruct (find_z (s_ub s') n); [|reflexivity]. destruct (_ <=? ep'); [|reflexivity].
+  assert (Hs : is_ok (sub_chk (aget (s_ubamt s') n) amt') = false) by (apply sub_chk_lt; lia).
+  destruct (sub_chk (aget (s_ubamt s') n) amt'); [discriminate|reflexivity].
+Qed.
